@@ -253,33 +253,18 @@ fn natural_boundary(rep: &mut Report) {
 }
 
 #[derive(Clone, Debug)]
-enum NatOp {
+pub enum NatOp {
     Add(Vec<u64>, u8),
     Shl(u16),
     Shr(u16),
 }
 
-fn natural_random(seed: u64, cases: u32, rep: &mut Report) {
-    let digits = || (proptest::collection::vec(any::<u64>(), 0..8), 0u8..130).prop_map(|(mut d, tz)| {
-        // force trailing zero bits / digit patterns
-        if !d.is_empty() && tz < 64 {
-            d[0] &= !0u64 << tz;
-        }
-        if tz > 100 && d.len() > 1 {
-            d[0] = 0;
-        }
-        d
-    });
-    let strat = (digits(), digits(), proptest::collection::vec(prop_oneof![3 => (digits(), any::<u8>()).prop_map(|(d, k)| NatOp::Add(d, k)), 2 => (0u16..300).prop_map(NatOp::Shl), 2 => (0u16..300).prop_map(NatOp::Shr)], 0..12));
-    let mut evals = 0u64;
-    let out = crate::pt::run(
-        seed,
-        cases,
-        &strat,
-        |c| progress(&json!({"sig": "C12/natural/random/crash", "case": format!("{c:x?}")}).to_string()),
-        |(a, b, ops)| no_panic(|| {
-            let mut r = Report::default();
-            let (ra, rb) = (RefNat::from_digits(a), RefNat::from_digits(b));
+
+/// one generated case of the Natural suite (also the entry point of the fuzz target `natural`)
+pub fn natural_case(ra: &RefNat, rb: &RefNat, ops: &[NatOp]) -> Result<(), String> {
+    no_panic(|| {
+        let mut r = Report::default();
+        let (ra, rb) = (ra.clone(), rb.clone());
             check_unary(&ra, &mut r)?;
             check_binary(&ra, &rb, &mut r)?;
             // op sequence
@@ -311,7 +296,28 @@ fn natural_random(seed: u64, cases: u32, rep: &mut Report) {
                 }
             }
             Ok(())
-        }),
+    })
+}
+
+fn natural_random(seed: u64, cases: u32, rep: &mut Report) {
+    let digits = || (proptest::collection::vec(any::<u64>(), 0..8), 0u8..130).prop_map(|(mut d, tz)| {
+        // force trailing zero bits / digit patterns
+        if !d.is_empty() && tz < 64 {
+            d[0] &= !0u64 << tz;
+        }
+        if tz > 100 && d.len() > 1 {
+            d[0] = 0;
+        }
+        d
+    });
+    let strat = (digits(), digits(), proptest::collection::vec(prop_oneof![3 => (digits(), any::<u8>()).prop_map(|(d, k)| NatOp::Add(d, k)), 2 => (0u16..300).prop_map(NatOp::Shl), 2 => (0u16..300).prop_map(NatOp::Shr)], 0..12));
+    let mut evals = 0u64;
+    let out = crate::pt::run(
+        seed,
+        cases,
+        &strat,
+        |c| progress(&json!({"sig": "C12/natural/random/crash", "case": format!("{c:x?}")}).to_string()),
+        |(a, b, ops)| natural_case(&RefNat::from_digits(a), &RefNat::from_digits(b), ops),
     );
     evals += out.cases * 60;
     rep.evaluations += evals;
